@@ -48,8 +48,9 @@ def generate(ctx, b):
     cases.sort(key=lambda x: x[0])
     total = len(cases)
     if b["sample4"] is not None:
-        small = [c for c in cases if max(c[1]["gen"]["m"], c[1]["gen"]["n"]) <= 3]
-        big = [c for c in cases if max(c[1]["gen"]["m"], c[1]["gen"]["n"]) > 3]
+        # the (few) ill-conditioned cases with an exact condition number are always kept
+        small = [c for c in cases if max(c[1]["gen"]["m"], c[1]["gen"]["n"]) <= 3 or c[1]["condk"]]
+        big = [c for c in cases if max(c[1]["gen"]["m"], c[1]["gen"]["n"]) > 3 and not c[1]["condk"]]
         rnd = random.Random(ctx.seed)
         # stratified by class so that every class contributes 4x4 members
         by = {}
@@ -93,6 +94,8 @@ def vacuity(cases, N):
             inc("zero_row_or_column")
         if g["cls"] == "compan" and g["k"] > 0:
             inc("graded_similarity")
+        if d["condk"]:
+            inc("ill_conditioned_with_exact_condition_number")
         if d["suffpd"]:
             inc("sufficiently_pd")
         if d["spd"] and not d["suffpd"] and d["cholk"]:
@@ -102,7 +105,7 @@ def vacuity(cases, N):
         for r in d["routines"]:
             inc("routine:" + r)
     need = ["cls:spd", "cls:symrefl", "cls:compan", "cls:triang", "cls:bidiag", "cls:tridiag", "cls:hess", "cls:dense",
-            "cls:svdrefl", "tall", "exact_cholesky", "graded_spd", "complex_pairs", "repeated_eigenvalues",
+            "cls:svdrefl", "cls:illcond", "cls:hilbert", "cls:lauchli", "ill_conditioned_with_exact_condition_number", "tall", "exact_cholesky", "graded_spd", "complex_pairs", "repeated_eigenvalues",
             "clustered_eigenvalues", "exact_singular_values", "rank_deficient", "zero_row_or_column", "sufficiently_pd",
             "symmetric_indefinite_or_unknown"] + ["n:%d" % i for i in range(1, N + 1)] + \
            ["routine:" + r for r in ("cholesky", "ldl", "ldl_forcepd", "gramschmidt", "bidiag", "tridiag", "hessenberg",
@@ -315,8 +318,8 @@ def run(ctx):
         "eigenvectors are demanded only for real eigenvalues; the real eigenvalues of a non-symmetric input are identified from the exact spectrum of the construction",
         "re-used buffers are InSitu objects left by a previous call of the same routine on another matrix of the same shape (with InitializeH set for the QR algorithm, as algorithm/newton does)"]
     return ctx.finish(
-        rule="one case per generator record of Factorization.tla (9 structure classes, sizes 1..N, exhaustive over the parameter grids of the tier; "
-             "quick: all cases up to 3x3 plus a seeded class-stratified sample of the 4x4 / 4xn cases); one evaluation per "
+        rule="one case per generator record of Factorization.tla (12 structure classes, sizes 1..N, exhaustive over the parameter grids of the tier; "
+             "quick: all cases up to 3x3, all ill-conditioned cases, plus a seeded class-stratified sample of the other 4x4 / 4xn cases); one evaluation per "
              "(case, routine, option combination, element type, buffer mode); distinct = distinct generator records",
         evaluations=nev, distinct_nontrivial=len(cases), exhaustive=b["sample4"] is None,
         trusted_base=["TLC", "CommunityModules Json", "Rat.tla", "harness residual evaluation (float64, harness/cmd/factor/proj.go)"])
@@ -352,7 +355,8 @@ MANIFEST = {
     "technique": "TLA+ contract + case enumeration by TLC with exact rationals; every real call recorded and validated by a TLC trace "
                  "specification that re-derives the case from the logged generator (two-stage oracle: coarse fixed point in TLC, fine "
                  "residuals in the harness projection)",
-    "text": "TLC enumerates SPD / symmetric-with-known-spectrum / companion / triangular / banded / dense / rank-deficient / graded inputs "
+    "text": "TLC enumerates SPD / symmetric-with-known-spectrum / companion / triangular / banded / dense / rank-deficient / graded / "
+            "ill-conditioned (graded singular values, Hilbert, Laeuchli; exact condition number, orthogonality tolerance u*cond) inputs "
             "up to 4x4 and prints the exact Cholesky and LDL factors, eigenvalues and singular values where the construction yields them; "
             "the real Cholesky, LDL, forced-PD LDL, Gram-Schmidt, Householder bi-/tridiagonalisation, Hessenberg reduction, QR algorithm, "
             "eigensystem, SVD, matrix square root and inverse square root are called for every option combination, Float64 and Real64, "
